@@ -70,6 +70,9 @@ func modelAddKey(in *Interp, c *gt.T) (Val, *RunErr) {
 	}
 	v, err := in.eval(c.Kids[1])
 	if err != nil {
+		// frozen de-facto: add_key appends its own call site to an error
+		// raised while evaluating its value argument
+		err.Sites = append(err.Sites, Site{Script: in.Name, Call: c})
 		return Void, err
 	}
 	in.Point.Set(pkey(k), v)
